@@ -32,6 +32,11 @@ def corrupt(case, rnd):
             return None
         c['prt'] = c['prt'] + [48]
         return c
+    if c['fam'] == 'c':
+        # the harness checks the law on the string itself: corrupt the string into one that is not a number at all,
+        # for which v == v+0 cannot hold as a numeric comparison
+        c['s'] = c['s'] + [120]
+        return c
     return None
 
 
